@@ -194,6 +194,16 @@ class Laws(object):
             close = abs(dur_total(nd) - dur_total(d)) <= (2 if flt else 0) and months_total(nd) == months_total(d)
             same_abs = all(getattr(nd, k) == getattr(d, k) for k in mon_rd.ABS_FIELDS + ('leapdays',)) and nd.weekday == d.weekday
             self.law('normalized', ints and close and same_abs, case, 'normalized() = %r of %r' % (nd, d), key)
+        # a delta is a value: being added to dates (either operand order, leap years included) leaves it as it was, and a
+        # used delta keeps giving the sums of a freshly built equal one
+        before = (fields_of(d), hash(d), repr(d))
+        first = [add_outcome(dt, d) for dt in PANEL] + [try_(lambda dt=dt: d + dt)[0] for dt in PANEL[:4]]
+        after = (fields_of(d), hash(d), repr(d))
+        fresh = R(**kw)
+        again = [(add_outcome(dt, d), add_outcome(dt, fresh)) for dt in PANEL]
+        ok = before == after and d == fresh and all(x[0] == y[0] and (x[0] != 'ok' or mon_rd.same_value(x[1], y[1])) for x, y in again)
+        self.law('use-leaves-value-unchanged', ok, case, 'before use %r, after %r; used vs fresh sums %r' % (
+            before[2], after[2], [r for r in again if r[0] != r[1]][:2]), key)
         self.ctx.sample({'kw': case['kw'], 'repr': repr(d), 'hash': hash(d)})
         return d
 
